@@ -301,6 +301,64 @@ def run(ctx):
         ctx.ob('C04-ESCAPE.fstring-literal-braces-re-escaped', f, f.node, esc,
                '' if esc else 'postJoinedStr copies the literal parts of an f-string verbatim: a literal `{{x}}` is regenerated as `{x}` and evaluated as an expression')
 
+    # ---------------------------------------------------------------- ARITY
+    # a tuple display rendered as a bare comma-separated list (the key of a subscript, a parenthesised tuple) needs the
+    # trailing comma when it has exactly one element: `d[x,]` is not `d[x]`, `(x,)` is not `(x)`
+    from ..typestate import eval_test
+    from ..q import cfg_node_of
+    sites = 0
+    for name, f in sorted(pt.methods.items()):
+        if not name.startswith('post'): continue
+        param = f.params[1] if len(f.params) > 1 else 'node'
+        tuple_typed = set()
+        if name == 'postTuple': tuple_typed.add(param)
+        for c in calls_in(f.node):
+            if dotted(c.func) == 'isinstance' and len(c.args) == 2 and dotted(c.args[1]) in ('ast.Tuple', 'Tuple'): tuple_typed.add(norm(c.args[0]))
+        if not tuple_typed: continue
+        g = None
+        for c in calls_in(f.node):
+            if not (isinstance(c.func, ast.Attribute) and c.func.attr == 'join' and isinstance(c.func.value, ast.Constant) and isinstance(c.func.value.value, str)
+                    and ',' in c.func.value.value and c.args and isinstance(c.args[0], (ast.ListComp, ast.GeneratorExp))): continue
+            it = c.args[0].generators[0].iter
+            if not (isinstance(it, ast.Attribute) and it.attr == 'elts' and norm(it.value) in tuple_typed): continue
+            X = norm(it.value); sites += 1
+            g = g or ctx.cg.cfg(f)
+            def atom(text, node, X=X):
+                t = text.replace(' ', '')
+                L = 'len(%s.elts)' % X
+                if t == L + '==1': return True
+                if t in (L + '!=1', L + '>1', L + '>=2', L + '==0', L + '<1'): return False
+                if t == 'isinstance(%s,ast.Tuple)' % X or t == 'isinstance(%s,Tuple)' % X or t == X + '.elts' or t == L: return True
+                return None
+            def edge_ok(x, y, lab):
+                n_ = g.nodes[x]
+                if n_.kind != 'test' or lab not in ('T', 'F'): return True
+                v = eval_test(n_.ast, atom)
+                return v is None or v == (lab == 'T')
+            here = cfg_node_of(g, c)
+            r = g.reach([g.entry], edge_ok=edge_ok)
+            bad = [h for h in here if h.id in r]
+            ctx.ob('C04-ARITY.one-element-tuple-keeps-its-comma', f, c, not bad,
+                   '' if not bad else 'the elements of a tuple (%s) are joined with commas on a path that a one-element tuple also takes: `d[x,]` is regenerated as '
+                   '`d[x]` (resp. `(x,)` as `(x)`), which is a different value' % X, node=c, expected='a branch for len(%s.elts) == 1 that emits the trailing comma' % X)
+    ctx.floor('C04-ARITY', sites, 2, 'bare comma-joined tuple renderings')
+    # ---------------------------------------------------------------- LISTFIELD
+    LIST_FIELDS = {'values', 'ops', 'comparators', 'elts', 'keys', 'args', 'keywords', 'generators', 'ifs', 'defaults'}
+    for kind, (dec, own, f) in sorted(table.items()):
+        cls = getattr(ast, kind, None)
+        if cls is None: continue
+        param = f.params[1] if len(f.params) > 1 else 'node'
+        par = {}
+        for x in ast.walk(f.node):
+            for ch in ast.iter_child_nodes(x): par[id(ch)] = x
+        for fld in [x for x in getattr(cls, '_fields', ()) if x in LIST_FIELDS]:
+            uses = [a for a in ast.walk(f.node) if isinstance(a, ast.Attribute) and a.attr == fld and dotted(a.value) == param and isinstance(a.ctx, ast.Load)]
+            if not uses: continue
+            only_indexed = all(isinstance(par.get(id(a)), ast.Subscript) and par[id(a)].value is a and isinstance(par[id(a)].slice, ast.Constant) for a in uses)
+            ctx.ob('C04-FIELDS.list-field-rendered-completely', f, '%s.%s' % (kind, fld), not only_indexed,
+                   '' if not only_indexed else 'post%s reads node.%s only at a constant index: the other items of the list are dropped from the regenerated source' % (kind, fld),
+                   node=f.node)
+
 
 MUTANTS = [
     dict(id='C04-m1', file='pony/orm/asttranslation.py', fn='priority',
@@ -308,7 +366,9 @@ MUTANTS = [
          new="            for i, child in enumerate(get_child_nodes(node)):\n                child_priority = getattr(child, 'priority', 0)\n                if child_priority > p or child_priority == p and i:", expect='C04-GROUP'),
     dict(id='C04-m2', file='pony/orm/asttranslation.py', fn='PythonTranslator.postAdd', old='    @priority(6)\n    def postAdd', new='    @priority(7)\n    def postAdd', expect='C04-GROUP'),
     dict(id='C04-m3', file='pony/orm/asttranslation.py', fn='PythonTranslator.postNot', old='    @priority(12)\n    def postNot', new='    def postNot', expect='C04-GROUP'),
-    dict(id='C04-m4', file='pony/orm/asttranslation.py', fn='PythonTranslator.postCompare', old='        for op, expr in zip(node.ops, node.comparators):\n            result.extend((op.src, expr.src))', new="        result.extend((node.ops[0].src, node.comparators[0].src))", benign=True),
+    dict(id='C04-m4', file='pony/orm/asttranslation.py', fn='PythonTranslator.postCompare', old='        for op, expr in zip(node.ops, node.comparators):\n            result.extend((op.src, expr.src))', new="        result.extend((node.ops[0].src, node.comparators[0].src))", expect='C04-FIELDS.list-field'),
     dict(id='C04-m5', file='pony/orm/asttranslation.py', fn='PythonTranslator.postSlice', old="        if node.step:\n            result.append(':')\n            result.append(node.step.src)\n", new='', expect='C04-FIELDS'),
+    dict(id='C04-m7', file='pony/orm/asttranslation.py', fn='PythonTranslator.postSubscript', old="        if isinstance(x, ast.Tuple) and len(x.elts) == 1:\n            key = x.elts[0].src + ','\n        elif isinstance(x, ast.Tuple) and x.elts:", new="        if isinstance(x, ast.Tuple):", expect='C04-ARITY'),
+    dict(id='C04-m8', file='pony/orm/asttranslation.py', fn='PythonTranslator.postTuple', old="        if len(node.elts) == 1:\n            return '(%s,)' % node.elts[0].src\n", new='', expect='C04-ARITY'),
     dict(id='C04-m6', file='pony/orm/asttranslation.py', fn='PythonTranslator.postPow', old='    @priority(3)\n    def postPow', new='    @priority(5)\n    def postPow', expect='C04-GROUP'),
 ]
